@@ -232,6 +232,17 @@ def model_lines(case):
     return lines
 
 
+_FLAG_TABLE = []
+
+
+def flag_table():
+    if not _FLAG_TABLE:
+        rep = common.run_model('C06', ['flagtable'])[0]
+        _FLAG_TABLE.append(np.array([int(x) for x in rep.split(',')], dtype=np.uint8))
+        assert len(_FLAG_TABLE[0]) == 4096
+    return _FLAG_TABLE[0]
+
+
 def expected(case, replies_by):
     """element-wise specification S from per-axis chunkOf maps"""
     T, F, B = case['T'], case['F'], case['B']
@@ -257,9 +268,11 @@ def expected(case, replies_by):
     w = np.where(miss['weights'], 0, pad(stored['weights'], 0)).astype(np.float32)
     wc = np.where(miss['weights_channel'], 0, pad(stored['weights_channel'], 0)).astype(np.float32)
     weights = w * wc[..., None]
-    lost_any = miss['correlator_data'] | miss['weights'] | miss['weights_channel'][..., None] | miss['flags']
-    flags = np.where(miss['flags'], DATA_LOST, pad(stored['flags'], 0)).astype(np.uint8)
-    flags = flags | (lost_any.astype(np.uint8) * DATA_LOST)
+    # the flag byte of every element comes from the Lean model's loadFlags table (stored byte x which arrays lost)
+    table = flag_table()
+    key = (pad(stored['flags'], 0).astype(np.int64) * 16 + miss['correlator_data'] * 1 + miss['weights'] * 2
+           + miss['weights_channel'][..., None] * 4 + miss['flags'] * 8)
+    flags = table[key]
     if case['pre'] is not None:
         t0, t1, f0, f1 = case['pre']
         vis, weights, flags = vis[t0:t1, f0:f1], weights[t0:t1, f0:f1], flags[t0:t1, f0:f1]
